@@ -142,7 +142,11 @@ impl Resolver {
         // A base unit's long name comes into existence with the base unit.
         if self.unmarked.get(id).is_none() {
             if let Some(base_unit) = self.long_names.get(id).cloned() {
-                return self.visit(&base_unit);
+                // Only when it's still to be loaded: `a !a` or
+                // `a !b` with `b !a` name each other.
+                if self.unmarked.get(&base_unit).is_some() {
+                    return self.visit(&base_unit);
+                }
             }
         }
         if self.temp_marks.get(id).is_some() {
